@@ -438,6 +438,28 @@ func (x *FnExec) localByName(fr *frame, name string, c *evalCtx) (Val, bool) {
 	if c.block == nil {
 		return Val{}, false
 	}
+	// rangeindexN: the hidden index of range loop N (an enclosing loop, addressed from an inner loop's invariant)
+	if strings.HasPrefix(name, "rangeindex") && len(name) > len("rangeindex") {
+		if n, err := strconv.Atoi(name[len("rangeindex"):]); err == nil {
+			for _, li := range fr.loops {
+				if li.ordinal != n {
+					continue
+				}
+				for _, in := range li.header.Instrs {
+					p, ok := in.(*ssa.Phi)
+					if !ok {
+						break
+					}
+					if p.Comment == "rangeindex" {
+						if v, ok := c.env[p]; ok {
+							return v, true
+						}
+					}
+				}
+			}
+			return Val{}, false
+		}
+	}
 	// 1. phi in the evaluation block named after the variable
 	for _, in := range c.block.Instrs {
 		p, ok := in.(*ssa.Phi)
